@@ -1123,7 +1123,8 @@ func (run *Run) drain() {
 		}
 		dt := run.core.advanceUntilArrival(maxDelay)
 		run.collect()
-		if len(run.core.parkedQ) == 0 {
+		if len(run.core.parkedQ) == 0 && dt >= maxDelay {
+			// (an arrival that vanished again was a goroutine of a dead world: that is not idleness)
 			idle++
 			if idle >= 2 {
 				run.stats.Drained = true
